@@ -26,6 +26,9 @@ class InfraError(Exception):
 
 
 def build(variant="dbg"):
+    # C19 replays the other properties' behaviours on the sanitizer-instrumented build
+    if variant == "dbg" and os.environ.get("VERIF_FORCE_SAN") == "1":
+        variant = "san"
     p = subprocess.run([os.path.join(VERIF, "bin/build.sh"), variant], capture_output=True, text=True)
     if p.returncode != 0:
         raise InfraError("build %s failed: %s" % (variant, p.stderr[-2000:]))
@@ -60,12 +63,14 @@ def _launch(bld, script, outdir, np, env, timeout, shim=False, san=False):
     e.setdefault("PNETCDF_SAFE_MODE", "0")
     e["OMPI_MCA_btl_vader_single_copy_mechanism"] = "none"
     pre = []
+    if os.path.basename(bld).startswith("san-"):
+        san = True
     if san:
         asan = subprocess.run(["gcc", "-print-file-name=libasan.so"], capture_output=True, text=True).stdout.strip()
         ubsan = subprocess.run(["gcc", "-print-file-name=libubsan.so"], capture_output=True, text=True).stdout.strip()
         pre += [asan, ubsan]
-        e["ASAN_OPTIONS"] = "detect_leaks=0:abort_on_error=0:exitcode=66:log_path=%s/asan" % outdir
-        e["UBSAN_OPTIONS"] = "halt_on_error=1:print_stacktrace=1:exitcode=67:log_path=%s/ubsan" % outdir
+        e["ASAN_OPTIONS"] = "detect_leaks=0:abort_on_error=0:exitcode=66:allocator_may_return_null=1:max_allocation_size_mb=2048:log_path=%s/asan" % outdir
+        e["UBSAN_OPTIONS"] = "halt_on_error=1:print_stacktrace=1:print_summary=1:exitcode=67:log_path=%s/ubsan" % outdir
     if shim:
         pre.append(shim_path())
     cmd = list(MPIEXEC) + ["-n", str(np)]
